@@ -257,9 +257,24 @@ pub fn run(args: &Args) {
       pre.push_str(CONTEXTS[*c].1);
       suf.insert_str(0, CONTEXTS[*c].2);
     }
+    // every fourth case the context also holds a *sibling*: another offending construct of the same rule placed before
+    // everything else — the construct itself with its regular-expression flags toggled when it has any, else another
+    // triggering snippet of the rule.  A context-free rule reports each of them as if the other were not there.
+    let mut names: Vec<&str> = chain.iter().map(|c| CONTEXTS[*c].0).collect();
+    if case_no % 4 == 3 {
+      let toggled = sn.src.replace("/u", "/\u{1}").replace("/g", "/gu").replace("/\u{1}", "/").replace("\"u\")", "\"\")").replace("'u')", "'')").replace("/;", "/u;").replace("/)", "/u)");
+      let sib = if toggled != sn.src && crng.chance(2, 3) {
+        toggled
+      } else {
+        corpus[idxs[crng.below(idxs.len())]].src.clone()
+      };
+      if embeddable(&sib) {
+        pre = format!("{}\n{}", sib.trim_end(), pre);
+        names.insert(0, "sibling-of-same-rule");
+      }
+    }
     let with_s = format!("{}{}{}", pre, sn.src, suf);
     let with_neutral = format!("{};{}", pre, suf);
-    let names: Vec<&str> = chain.iter().map(|c| CONTEXTS[*c].0).collect();
     let base = match lint(l, &sn.src, ext) {
       Outcome::Ok(d) => d,
       _ => continue,
